@@ -166,7 +166,56 @@ func renamedField(p *packages.Package, typ, name string, st *types.Struct) *type
 		renamedNote.Store(p.PkgPath+"."+typ+"."+name, cand[0].Name())
 		return cand[0]
 	}
+	if len(cand) == 0 {
+		// moved into a nested struct? (see nestedField)
+		if _, f := nestedField(p, typ, name, st); f != nil {
+			return f
+		}
+	}
 	return nil
+}
+
+// nestedField: the anchor field was moved into a struct that typ now holds (by value or embedded) in a field that is not itself
+// a recorded anchor and whose type is a named struct of the same package that is not a recorded anchor type either: the unique
+// field of such a nested struct with the recorded type. Returns the path of field names from typ and the field.
+func nestedField(p *packages.Package, typ, name string, st *types.Struct) ([]string, *types.Var) {
+	tab := loadAnchors()
+	want, ok := tab.Fields[p.PkgPath+"|"+typ+"|"+name]
+	if !ok {
+		return nil, nil
+	}
+	type hit struct {
+		path []string
+		f    *types.Var
+	}
+	var hits []hit
+	for i := 0; i < st.NumFields(); i++ {
+		h := st.Field(i)
+		if _, known := tab.Fields[p.PkgPath+"|"+typ+"|"+h.Name()]; known {
+			continue
+		}
+		n := namedOf(h.Type())
+		if n == nil || n.Obj().Pkg() == nil || n.Obj().Pkg().Path() != p.PkgPath {
+			continue
+		}
+		if _, known := tab.Types[p.PkgPath+"|"+n.Obj().Name()]; known {
+			continue
+		}
+		ns, isS := n.Underlying().(*types.Struct)
+		if !isS {
+			continue
+		}
+		for j := 0; j < ns.NumFields(); j++ {
+			if typeStr(ns.Field(j).Type()) == want {
+				hits = append(hits, hit{[]string{h.Name(), ns.Field(j).Name()}, ns.Field(j)})
+			}
+		}
+	}
+	if len(hits) == 1 {
+		renamedNote.Store(p.PkgPath+"."+typ+"."+name, strings.Join(hits[0].path, "."))
+		return hits[0].path, hits[0].f
+	}
+	return nil, nil
 }
 
 // renamedFunc: the unique function of the package with the recorded signature (and receiver) of the missing anchor whose own
@@ -283,6 +332,22 @@ func resolvePath(p *packages.Package, typ, path string) string {
 		f := lookupField(p, cur, cname)
 		if f == nil {
 			return path
+		}
+		// a field that moved into a nested struct contributes both path components
+		if n := lookupType(p, cur); n != nil {
+			if st, isS := n.Underlying().(*types.Struct); isS {
+				direct := false
+				for i := 0; i < st.NumFields(); i++ {
+					if st.Field(i) == f {
+						direct = true
+					}
+				}
+				if !direct {
+					if np, nf := nestedField(p, cur, cname, st); nf == f && len(np) == 2 {
+						out += "." + np[0]
+					}
+				}
+			}
 		}
 		out += "." + f.Name()
 		n := namedOf(f.Type())
